@@ -21,6 +21,8 @@ def describe(sig, st):
         return "recorded slot trace breaks rule %s of EncVMTrace.tla" % p[1]
     if p[0] == "cycle":
         return "a value with a cycle through %s: %s" % (p[2] if len(p) > 2 else "?", p[1])
+    if p[0] == "shared":
+        return "an ACYCLIC value in which a node with a %s member is reached twice %s the cycle-detection depth: %s" % (p[2] if len(p) > 2 else "?", (p[3] if len(p) > 3 else "").replace("-", " "), p[1].replace("-", " "))
     if p[0] == "stack":
         return "a value living in the caller's frame is encoded wrongly by %s once a MarshalJSON callback has grown (moved) the stack: %s" % (p[2] if len(p) > 2 else "?", p[1])
     if p[0] == "crash":
